@@ -54,10 +54,20 @@ def _op_calls(u):
 @rule('C15.1')
 def accumulator_provenance(ctx):
     p = ctx.program
-    for q in FOLD_UNITS:
+    fold_cls = ctx.cls('reduction.Fold')
+    fold_units, agg_units = [], []
+    for c_ in p.subclasses(fold_cls):
+        if '_fold' in c_.methods:
+            fold_units.append(c_.methods['_fold'].qualname)
+        if '_agg' in c_.methods:
+            agg_units.append(c_.methods['_agg'].qualname)
+    ctx.require('reduction.Fold._fold' in fold_units and 'reduction.Fold._agg' in agg_units, 'fold / aggregate methods not found')
+    for q in fold_units:
         u = ctx.unit(q)
         cfg = ctx.cfg(u)
         ops = _op_calls(u)
+        if q == 'reduction.Flatten._fold' and not ops:
+            continue      # delegates to Fold._fold / a lazy combinator (C15.4)
         ctx.require(len(ops) == 1, '%s: fold operator call not found' % q)
         c = ops[0]
         cn = cfg.node_containing(c)
@@ -88,10 +98,18 @@ def accumulator_provenance(ctx):
         # self.init() is evaluated in this method, once, outside the loop
         inits = [x for x in calls_in(u) if _is_init_call(x)]
         ctx.ob(len(inits) == 1 and not cfg.node_containing(inits[0]).loop_stack, u, 'init() is called once per evaluation, in the method')
-    for q in AGG_UNITS:
+    for q in agg_units:
         u = ctx.unit(q)
         cfg = ctx.cfg(u)
         ops = _op_calls(u)
+        # anything stored into the spec's tree slot is init() or an operator result
+        slot_stores = [n for n in u.own_nodes() if isinstance(n, ast.Assign) and any(
+            isinstance(t, ast.Subscript) and is_name(t.value, u.params[2]) and is_name(t.slice, 'self') for t in n.targets)]
+        for st_ in slot_stores:
+            v = st_.value
+            okv = _is_init_call(v) or (isinstance(v, ast.Call) and v in ops)
+            ctx.ob(okv, u, 'the accumulator slot only ever holds init() or an operator result: %s' % norm(st_),
+                   '' if okv else 'an input item is adopted as the accumulator (later items are folded into the caller\'s own object)', node=st_)
         ctx.require(len(ops) == 1, '%s: aggregate operator call not found' % q)
         c = ops[0]
         a0 = deref(cfg, cfg.node_containing(c), c.args[0])
